@@ -169,7 +169,7 @@ func judgeC07(c *fw.Ctx, id string, run *batchRun) {
 				c.Violate(id, "batch:slot-holds-other-calls-error", fmt.Sprintf("slot %d (%s) holds %v: %s", i, opid, res.Error, b), b)
 			}
 		}
-		if i == run.OwnCtx && b.Trigger == "own-ctx-sibling-retried" {
+		if i == run.OwnCtx && (b.Trigger == "own-ctx-sibling-retried" || b.Trigger == "own-ctx-while-locating") {
 			// its reply is released only after SendBatch has returned: the call
 			// must end with its own context error, nothing else is judged
 			c.Count("own_context_calls_checked", 1)
